@@ -64,8 +64,15 @@ func (c07) Run(c *Ctx, csAny any) Outcome {
 		return out
 	}
 
-	if r1.Rep.Kind != "failed" && r1.Rep.Kind != "panic" {
+	if r1.FirstBad < 0 || (r1.Rep.Kind != "failed" && r1.Rep.Kind != "panic" && r1.Rep.Kind != "flaky") {
 		out.Classes = append(out.Classes, "no-reported-failure")
+		return out
+	}
+	if r1.Rep.Kind == "flaky" {
+		// the program is a deterministic function of its draws: "can not reproduce" means that the run was not
+		// re-run from the seed of the falsified test case
+		out.Viol = violf("C07:seed-does-not-reproduce", "base seed %d: test case #%d falsified the property, but re-running it from its seed did not reproduce the failure: %s", cs.Cfg.Seed, r1.FirstBad+1, firstLine(r1.Rep.Repro))
+		out.NonTrivial = r1.FirstBad >= 1
 		return out
 	}
 	// count the valid cases before the first falsified one
